@@ -66,11 +66,11 @@ ASSUMPTIONS = [
 ]
 MIN_COUNTERS = {
     "quick": {"programs": 200, "comparisons": 20000, "cmp_static": 3000, "cmp_derived": 2000, "cmp_item": 2000,
-              "cmp_nested_item": 300, "cmp_dyn_child": 500, "cmp_uncached": 2000, "twin_programs": 60,
+              "cmp_nested_item": 300, "cmp_dyn_child": 500, "cmp_uncached": 2000, "twin_programs": 50,
               "cmp_flipped": 300},
-    "thorough": {"programs": 4000, "comparisons": 400000, "cmp_static": 60000, "cmp_derived": 40000,
+    "thorough": {"programs": 3000, "comparisons": 400000, "cmp_static": 60000, "cmp_derived": 40000,
                  "cmp_item": 40000, "cmp_nested_item": 6000, "cmp_dyn_child": 10000, "cmp_uncached": 40000,
-                 "twin_programs": 1200, "cmp_flipped": 6000},
+                 "twin_programs": 800, "cmp_flipped": 6000},
 }
 SHARD_TIMEOUT = {"quick": 900, "thorough": 5400}
 MAX_CONFIRM = 8          # distinct signature sets confirmed by replay (each replay also shrinks: ~1 min)
@@ -523,7 +523,7 @@ def _space_formula_keys(src):
     return out
 
 
-def known_space_shape(ops, q, b):
+def known_space_shape(ops, q, b, csp=None):
     """K_SPACE when the queried instance lies in an ItemSpace whose parameter formula returns `base`, or the
     package misses an attribute that the parameter formula of an enclosing space returns in `refs`"""
     forms = {}
@@ -539,9 +539,14 @@ def known_space_shape(ops, q, b):
     if any(f["base"] for f in anc):
         return K_SPACE
     if b[0] == "err" and b[1] == "AttributeError":
-        mm = re.match(r"'(\w+)' object has no attribute '(\w+)'", b[2] if len(b) > 2 else "")
-        if mm and any(mm.group(2) in f["refs"] for f in anc):
-            return K_SPACE
+        # the space in which the exception was raised (it may have been reached through a caller in a static
+        # space) or one of its ancestors returns the missing name from its parameter formula
+        mm = re.match(r"'_c_(\w+)' object has no attribute '(\w+)'", b[2] if len(b) > 2 else "")
+        if mm and csp and csp.rsplit(".", 1)[-1] == mm.group(1):
+            parts = csp.split(".")
+            own = [forms[".".join(parts[:i])] for i in range(1, len(parts) + 1) if ".".join(parts[:i]) in forms]
+            if any(mm.group(2) in f["refs"] for f in own):
+                return K_SPACE
     return None
 
 
@@ -740,7 +745,7 @@ def run_variant(case, ops, tag, root, cnt, matrix, vio, sample):
                 cached = bool(c.is_cached)
             except Exception:     # noqa
                 pass
-            sig = known_shape(b, src) or known_space_shape(ops, q, b)
+            sig = known_shape(b, src) or known_space_shape(ops, q, b, csp)
             if sig is None:
                 # coarse while unshrunk (few distinct signatures => few confirmation replays); the grammar
                 # forms of the minimal formula are added once the case has been shrunk
